@@ -68,6 +68,21 @@ let eval inp obs =
   let specE = ref [] (* (id, event), newest first: events the implementation accepted *) and specEF = ref [] in
   let table = ref None in
   let get_table () = (match !table with Some t -> t | None -> let t = anc_table !specE in table := Some t; t) in
+  (* size class big-dropped-event (> 400 Adds): the byte-level engine model re-decodes its tables on every Add
+     (quadratic), so these cases run on the abstract two-level index (vs_add / vs_flush / vs_drop + fc_query), which
+     the byte-level engine refines step by step (proofs/VecPersistProofs.v: p_step_sim, cstep_ok).  The specification
+     is evaluated on the sub-DAG below A (equal by FcSpecFacts.fc_spec_submap), queries name events with a small ancestry. *)
+  let big = List.length (List.filter (fun op -> match op with ("E" | "A") :: _ -> true | _ -> false) ops) > 400 in
+  let vsr = ref (vs_init nvn0) and bcache = ref (fcache_new (nat_of_int fcsize)) in
+  let restricted a =
+    let anc_a = anc !specE a in
+    let e' = List.filter (fun (k, _) -> List.mem k anc_a) !specE in (e', anc_table e') in
+  let do_query a b =
+    if big then (let (r, c') = fc_query !ws !q !vsr.vs_cur !bcache a b in bcache := c'; r)
+    else (let (r, ce') = ce_query !ws !q !ce a b in ce := ce'; r) in
+  let spec_row a bs =
+    if big then (let (e', t') = restricted a in fc_spec_row !ws !q !nvn e' t' a bs)
+    else fc_spec_row !ws !q !nvn !specE (get_table ()) a bs in
   let qi = ref (Some (qi_new !nvn)) in
   let lastp = Array.make (max nv0 1) None and selfev = ref None in
   let diff = diff_family diffk in
@@ -87,9 +102,14 @@ let eval inp obs =
     | ("E" | "A") :: _ :: cr :: _ when int_of_string cr >= !nv -> "es"   (* no such validator: not submitted *)
     | ("E" | "A" as kind) :: id :: cr :: sq :: ps ->
       let e = { eid = n_of_tok id; ecr = nat_of_tok cr; eseq = n_of_tok sq; epar = List.map n_of_tok ps } in
-      let (ok, ce') = ce_add !ce e in
-      ce := (if ok && kind = "E" then ce_flush ce' else ce');
-      s := ce_view !ce;
+      let ok =
+        if big then begin
+          let (ok, st') = vs_add !vsr e in
+          vsr := (if ok && kind = "E" then vs_flush st' else st'); s := !vsr.vs_cur; ok end
+        else begin
+          let (ok, ce') = ce_add !ce e in
+          ce := (if ok && kind = "E" then ce_flush ce' else ce');
+          s := ce_view !ce; ok end in
       if ok then order := e.eid :: !order else order := !orderF;
       if iobs = "e1" then begin
         if not !mal && not (wf_evb !nvn !specE e) then begin
@@ -104,7 +124,9 @@ let eval inp obs =
     | ["F"] -> ce := ce_flush !ce; s := ce_view !ce; orderF := !order; specEF := !specE; "f"
     | ["D"] ->
       let lost = List.length !order - List.length !orderF in
-      ce := ce_drop !ce; s := ce_view !ce; order := !orderF; specE := !specEF; table := None;
+      if big then begin vsr := vs_drop !vsr; s := !vsr.vs_cur end
+      else begin ce := ce_drop !ce; s := ce_view !ce end;
+      order := !orderF; specE := !specEF; table := None;
       "d" ^ string_of_int lost
     | ["RI"; fc; vc] ->
       let lost = List.length !order - List.length !orderF in
@@ -133,23 +155,36 @@ let eval inp obs =
       let pairs = List.concat_map (fun a -> List.map (fun b -> (a, b)) r) r in
       let run () =
         let tbl = Hashtbl.create 64 in
-        List.iter (fun (a, b) -> let (res, ce') = ce_query !ws !q !ce a b in
-                    ce := ce'; Hashtbl.replace tbl (a, b) res)
+        List.iter (fun (a, b) -> Hashtbl.replace tbl (a, b) (do_query a b))
           (if ord = "1" then List.rev pairs else pairs);
         bits (List.map (fun p -> Hashtbl.find tbl p) pairs) in
       let b1 = run () in let b2 = run () in
-      let sp = bits (List.concat_map (fun a -> fc_spec_row !ws !q !nvn !specE (get_table ()) a r) r) in
+      let sp = bits (List.concat_map (fun a -> spec_row a r) r) in
       if String.contains sp '1' then fctrue := true;
       if not !mal then begin
         if iobs <> "q" ^ sp ^ "/" ^ sp then spec_bad := (Printf.sprintf "op%d:Q spec=%s" i sp) :: !spec_bad;
         if b1 <> sp || b2 <> sp then mspec_bad := (Printf.sprintf "op%d:Q" i) :: !mspec_bad
       end;
       "q" ^ b1 ^ "/" ^ b2
+    | ["QF"; k; m] ->   (* ForklessCause(A, B) for A among the last k and B among the first m indexed events *)
+      let all = List.rev !order in
+      let ra = lastn (int_of_string k) all in
+      let rb = List.filteri (fun i _ -> i < int_of_string m) all in
+      let run () = bits (List.concat_map (fun a -> List.map (fun b -> do_query a b) rb) ra) in
+      let b1 = run () in let b2 = run () in
+      let sp = bits (List.concat_map (fun a -> spec_row a rb) ra) in
+      if String.contains sp '1' then fctrue := true;
+      if not !mal then begin
+        if iobs <> "q" ^ sp ^ "/" ^ sp then spec_bad := (Printf.sprintf "op%d:QF spec=%s" i sp) :: !spec_bad;
+        if b1 <> sp || b2 <> sp then mspec_bad := (Printf.sprintf "op%d:QF" i) :: !mspec_bad
+      end;
+      "q" ^ b1 ^ "/" ^ b2
     | ["M"; k] ->
       let r = lastn (int_of_string k) (List.rev !order) in
       let one id =
-        let (m, ce') = ce_merged !ce id in ce := ce';   (* GetMergedHighestBefore through the HB cache *)
-        let sp = merged_spec_t !nvn !specE (get_table ()) id in
+        let m = (if big then merged !s id else (let (m, ce') = ce_merged !ce id in ce := ce'; m)) in
+        let sp = (if big then (let (e', t') = restricted id in merged_spec_t !nvn e' t' id)
+                  else merged_spec_t !nvn !specE (get_table ()) id) in
         let sp_tok = csv (fun (f, x) -> if f then "F" else ntok x) sp in
         let m_tok = csv hb_tok_a m in
         if not !mal && m_tok <> sp_tok then mspec_bad := (Printf.sprintf "op%d:M%s" i (ntok id)) :: !mspec_bad;
@@ -240,7 +275,7 @@ let eval inp obs =
   { default_verdict with model_obs = List.rev !mobs;
     spec_ok = Some (!spec_bad = []);
     model_spec_ok = (!mspec_bad = [] && !hyp_bad = []);
-    nontrivial = (!forkseen || !fctrue) && (declared_mal || !hyp_bad = []);
+    nontrivial = (!forkseen || !fctrue || big) && (declared_mal || !hyp_bad = []);
     note = (if !spec_bad <> [] then "impl-vs-spec at " ^ join " " (List.rev !spec_bad) else "") ^
            (if !mspec_bad <> [] then " model-vs-spec at " ^ join " " (List.rev !mspec_bad) else "") ^
            (if !hyp_bad <> [] then " hypothesis: " ^ join " " (List.rev !hyp_bad) else "") }
